@@ -12,6 +12,14 @@ L3 (the property on the implementation's outputs): finite, non-negative, the thr
     epistemic² = variance of the tree means, n_jobs=1 vs n_jobs=4 agree, the `d` acquisitions use the
     epistemic part only.  Float tolerance: variances absolute <= max(64, 2n+8)·eps·(aleatoric + E[m_t²])
     (relative to the second moment: E[m²] − mean² cancels catastrophically), means <= 4·n·eps·mean|m_t|.
+
+Query side (the property quantifies over every query): every step of a history predicts on its own query OBJECT
+— rows of the same pool as float64 / float32 / float16 / longdouble / integer / bool / object arrays, nested lists,
+tuples, DataFrames, C / Fortran / column- or row-strided / reversed views, read-only arrays, single-row and
+two-row batches.  The per-tree ground truth is taken with the SAME object (scikit-learn's trees cast it to
+float32 themselves), and the returned mean / stds must match the exact model within the same float64 tolerance
+whatever the query's dtype or layout: the accumulation happens in float64 (tree.predict and tree_.impurity are
+float64), never in the dtype of the query.
 """
 import math
 import pickle
@@ -62,8 +70,90 @@ def _gen_case(rng, thorough):
         kw["min_variance"] = rng.choice(case["minvars"])
         if kw["n_estimators"] < 3 and rng.random() < 0.8:
             kw["n_estimators"] = rng.choice([5, 7, 10, 20])
+    case["query"] = _gen_query(rng, 0.45)
     case["history"] = _gen_history(rng, case)
     return case
+
+
+QDTYPES = ["f32", "f32", "f32", "f32", "f16", "f16", "i64", "i32", "i8", "u8", "bool", "f64", "f64", "f128", "obj"]
+QLAYOUTS = ["C", "C", "C", "F", "colstride", "rowstride", "reversed", "list", "tuples", "df"]
+
+
+def _gen_query(rng, p_default):
+    """The query OBJECT handed to predict: None = the float64 C-contiguous pool itself."""
+    if rng.random() < p_default:
+        return None
+    q = {"dtype": rng.choice(QDTYPES), "layout": rng.choice(QLAYOUTS)}
+    if rng.random() < 0.25 and q["layout"] not in ("list", "tuples", "df"):
+        q["readonly"] = True
+    r = rng.random()
+    if r < 0.2:
+        q["rows"] = "one"
+    elif r < 0.3:
+        q["rows"] = "two"
+    elif r < 0.4:
+        q["rows"] = "tail"
+    return q
+
+
+_NP_DTYPES = {"f64": np.float64, "f32": np.float32, "f16": np.float16, "f128": np.longdouble, "i64": np.int64, "i32": np.int32,
+              "i8": np.int8, "u8": np.uint8, "bool": np.bool_, "obj": object}
+
+
+def _make_query(Q, q):
+    """Build the query object of spec `q` from the float64 pool `Q` (rows x features)."""
+    if not q:
+        return Q
+    A = Q
+    rows = q.get("rows", "all")
+    if rows == "one":
+        A = A[len(A) // 2: len(A) // 2 + 1]
+    elif rows == "two":
+        A = A[[0, len(A) - 1]]
+    elif rows == "tail":
+        A = A[1:]
+    dt = q.get("dtype", "f64")
+    if dt not in _NP_DTYPES:
+        raise HarnessError(f"unknown query dtype {dt}")
+    if dt in ("i64", "i32", "i8", "u8"):
+        A = np.round(np.abs(A) * 3.0).astype(_NP_DTYPES[dt])
+    elif dt == "bool":
+        A = A > 0.5
+    else:
+        A = A.astype(_NP_DTYPES[dt])
+    lay = q.get("layout", "C")
+    n, d = A.shape
+    if lay == "C":
+        A = np.ascontiguousarray(A)
+    elif lay == "F":
+        A = np.asfortranarray(A)
+    elif lay == "colstride":
+        big = np.zeros((n, 2 * d), dtype=A.dtype)
+        big[:, ::2] = A
+        A = big[:, ::2]
+    elif lay == "rowstride":
+        big = np.zeros((2 * n, d), dtype=A.dtype)
+        big[::2] = A
+        A = big[::2]
+    elif lay == "reversed":
+        A = np.ascontiguousarray(A[::-1])[::-1]
+    elif lay == "list":
+        A = A.tolist()
+    elif lay == "tuples":
+        A = [tuple(r) for r in A.tolist()]
+    elif lay == "df":
+        import pandas as pd
+
+        A = pd.DataFrame(A)
+    else:
+        raise HarnessError(f"unknown query layout {lay}")
+    if q.get("readonly") and isinstance(A, np.ndarray):
+        A.setflags(write=False)
+    return A
+
+
+def _qsig(q):
+    return "default" if not q else ",".join(f"{k}={q[k]}" for k in sorted(q))
 
 
 MINVARS = [0.0, 1e-12, 1e-3, 2.5, 1e6, 7.0]
@@ -107,6 +197,8 @@ def _gen_history(rng, case):
         if "n_jobs" in op:
             nj = op["n_jobs"]
         op["forms"] = forms()
+        if rng.random() < 0.35:  # this step predicts on its own query object (other dtype / layout / batch length)
+            op["q"] = _gen_query(rng, 0.2)
         hist.append(op)
     # every history visits a parallel state at least once (n_estimators % n_jobs != 0 is common: 5, 7, 10, 50 trees)
     if case["n_jobs0"] == 1 and not any(o.get("n_jobs", 1) > 1 for o in hist):
@@ -159,6 +251,7 @@ class _OrderSpy:
         self.mod = mod
         self.lock = threading.Lock()
         self.order = []
+        self.threads = []
         self.index = {}
         self.installed = all(callable(getattr(mod, n, None)) for n in self.NAMES)
         self.orig = tuple(getattr(mod, n, None) for n in self.NAMES)
@@ -167,6 +260,7 @@ class _OrderSpy:
         def g(*args, **kw):
             with self.lock:
                 self.order.append(self.index.get(id(args[0]), -1) if args else -1)
+                self.threads.append(threading.get_ident())
                 return f(*args, **kw)
         return g
 
@@ -183,7 +277,16 @@ class _OrderSpy:
 
     def take(self):
         o, self.order = self.order, []
+        self.last_threads, self.threads = self.threads, []
         return o
+
+    def take_blocks(self):
+        """(order, blocks): blocks = the tree indices each worker thread handled, in its own order, threads by first appearance"""
+        o = self.take()
+        by = {}
+        for i, t in zip(o, self.last_threads):
+            by.setdefault(t, []).append(i)
+        return o, list(by.values())
 
 
 def _default_history(case):
@@ -211,6 +314,7 @@ def _call(m, Q, form):
 
 
 def _apply(m, op, X, y, Q):
+    """Q: the query object of this step"""
     k = op["op"]
     if k == "set_params":
         m.set_params(**{p: op[p] for p in ("min_variance", "n_jobs") if p in op})
@@ -240,31 +344,37 @@ def _run_history(case, spy):
     hist = case.get("history") or _default_history(case)
     checks = []
     for step, op in enumerate(hist):
-        chk = {"step": step, "op": op["op"], "error": None}
+        qspec = op["q"] if "q" in op else case.get("query")
+        chk = {"step": step, "op": op["op"], "error": None, "q": qspec, "qsig": _qsig(qspec)}
         checks.append(chk)
         try:
-            m = _apply(m, op, X, y, Q)
+            Qs = _make_query(Q, qspec)      # the object handed to the code under test
+            Qg = _make_query(Q, qspec)      # an equal object built separately, for the ground truth
+            m = _apply(m, op, X, y, Qs)
             chk["n_jobs"] = m.n_jobs if isinstance(m.n_jobs, int) else 1
             chk["minvar"] = float(m.min_variance)
             trees = list(m.estimators_)
             n = chk["n"] = len(trees)
+            nq = chk["nq"] = len(Qg)
             spy.index = {id(t): i for i, t in enumerate(trees)}
             spy.take()
-            outs, orders = {}, {}
+            outs, orders, blocks = {}, {}, {}
             for form in op.get("forms", FORMS):
-                outs[form] = _call(m, Q, form)
-                orders[form] = spy.take()
-            # ground truth, obtained without going through the code under test
-            chk["tm"] = np.array([t.predict(Q) for t in trees], dtype=float)
-            chk["tv"] = np.array([t.tree_.impurity[t.apply(Q)] for t in trees], dtype=float)
+                outs[form] = _call(m, Qs, form)
+                orders[form], blocks[form] = spy.take_blocks()
+            chk["out_dtypes"] = sorted({str(getattr(a, "dtype", type(a).__name__)) for f in FORMS for a in outs[f]})
+            # ground truth, obtained without going through the code under test (the trees cast the query to float32 themselves)
+            chk["tm"] = np.array([t.predict(Qg) for t in trees], dtype=float)
+            chk["tv"] = np.array([t.tree_.impurity[t.apply(Qg)] for t in trees], dtype=float)
             chk["outs"] = outs
             ok_shapes = (len(outs["plain"]) == 1 and len(outs["std"]) == 2 and len(outs["dis"]) == 3 and
-                         all(a.shape == (len(Q),) for f in FORMS for a in outs[f]))
+                         all(a.shape == (nq,) for f in FORMS for a in outs[f]))
             if not ok_shapes:
-                chk["error"] = "shape: " + str({f: [a.shape for a in outs[f]] for f in FORMS})
+                chk["error"] = "shape: " + str({f: [a.shape for a in outs[f]] for f in FORMS}) + f" for {nq} query rows"
             want = list(range(n))
             chk["order_ok"] = spy.installed and sorted(orders["std"]) == want and sorted(orders["dis"]) == want
             chk["order"] = [int(i) for i in orders["std"]] if chk["order_ok"] else want
+            chk["blocks"] = [[int(i) for i in b] for b in blocks["std"]] if chk["order_ok"] else [want]
             chk["order_seen"] = {"installed": spy.installed, "std": orders["std"][:60], "dis": orders["dis"][:60]}
         except HarnessError:
             raise
@@ -274,7 +384,9 @@ def _run_history(case, spy):
             chk["error"] = f"{type(e).__name__}: {e}"
             chk["trace"] = traceback.format_exc()[-1200:]
             break
-    res = {"checks": checks, "nq": len(Q), "acq": None}
+    res = {"checks": checks, "acq": None}
+    Q = _make_query(Q, case.get("query"))      # the acquisitions are evaluated on the case's query object
+    Qg = _make_query(_data(case)[2], case.get("query"))
     # the `d` acquisitions must use the epistemic part only (n_jobs=1: same accumulation order => same doubles)
     if not any(c["error"] for c in checks):
         try:
@@ -295,6 +407,14 @@ def _run_history(case, spy):
                     want = -np.asarray(sd_, dtype=float) if kp == "inf" else np.asarray(mu_, dtype=float) - kp * np.asarray(sd_, dtype=float)
                     res["acq"]["other"][f"{name}(kappa={kp})"] = {"ok": bool(np.array_equal(got, want)), "got": got.tolist(), "want": want.tolist(),
                                                                  "total_std": np.asarray(sd).tolist(), "epistemic_std": np.asarray(ep).tolist()}
+            # which std the plain / `d` acquisitions read (observed as -LCB(kappa="inf") / -LCBd(kappa="inf")), for the Lean model
+            # `acqMoments` on per-tree ground truth taken independently of the forest's own predict
+            trees_ = list(m.estimators_)
+            res["acq"]["model"] = {"minvar": float(m.min_variance), "n": len(trees_),
+                                   "tm": np.array([t.predict(Qg) for t in trees_], dtype=float),
+                                   "tv": np.array([t.tree_.impurity[t.apply(Qg)] for t in trees_], dtype=float),
+                                   "used_plain": -np.asarray(res["acq"]["other"]["LCB(kappa=inf)"]["got"], dtype=float),
+                                   "used_d": -np.asarray(res["acq"]["other"]["LCBd(kappa=inf)"]["got"], dtype=float)}
             # EId / PId / MESd: the `d` variant on the forest must equal the plain variant on a stand-in model whose
             # std IS the epistemic std (and differ from it on a stand-in with the total std whenever the two stds differ)
             import inspect
@@ -354,13 +474,29 @@ def _requests(res):
         tolm = 4 * n * EPS
         o = c["outs"]
         pts = []
-        for j in range(res["nq"]):
+        for j in range(c["nq"]):
             pts.append({"trees": [[rat(c["tm"][i, j]), rat(c["tv"][i, j])] for i in range(n)],
                         "got": [rat(o["plain"][0][j]), rat(o["std"][0][j]), rat(o["std"][1][j]),
                                 rat(o["dis"][0][j]), rat(o["dis"][1][j]), rat(o["dis"][2][j])]})
-        reqs.append({"op": "forest", "minvar": rat(c["minvar"]), "order": c["order"], "tolv": rat(tolv), "tolm": rat(tolm), "points": pts})
+        reqs.append({"op": "forest", "minvar": rat(c["minvar"]), "order": c["order"], "blocks": c["blocks"], "tolv": rat(tolv), "tolm": rat(tolm),
+                     "points": pts})
         idx.append(k)
     return reqs, idx, early
+
+
+def _acq_request(res):
+    """the Lean request judging which std the acquisitions read (None when there is nothing well-formed to judge)"""
+    am = (res.get("acq") or {}).get("model")
+    if not am:
+        return None
+    n, tm, tv = am["n"], am["tm"], am["tv"]
+    up, ud = am["used_plain"], am["used_d"]
+    nq = tm.shape[1] if tm.ndim == 2 else 0
+    if not (n and nq and up.shape == (nq,) and ud.shape == (nq,) and np.all(np.isfinite(tm)) and np.all(np.isfinite(tv)) and
+            np.all(np.isfinite(up)) and np.all(np.isfinite(ud))):
+        return None  # malformed / non-finite acquisition values are reported by the other acquisition clauses
+    return {"op": "acq", "minvar": rat(am["minvar"]), "tolv": rat(max(64, 2 * n + 8) * EPS),
+            "points": [{"trees": [[rat(tm[i, j]), rat(tv[i, j])] for i in range(n)], "used_plain": rat(up[j]), "used_d": rat(ud[j])} for j in range(nq)]}
 
 
 CLAUSES = [("mean_ok", "mean-is-average", "a predicted mean is not the average of the tree predictions"),
@@ -371,7 +507,7 @@ CLAUSES = [("mean_ok", "mean-is-average", "a predicted mean is not the average o
            ("var_ok", "total-is-al+ep-exact", "total variance differs from the exact total variance of the trees")]
 
 
-def _evaluate(ck, case, res, reqs, idx, early, reps):
+def _evaluate(ck, case, res, reqs, idx, early, reps, acq_rep=None):
     """-> (failures [(clause, what, check_index, detail)], l2 problems [detail])"""
     fails = list(early)
     l2 = []
@@ -383,15 +519,19 @@ def _evaluate(ck, case, res, reqs, idx, early, reps):
                                "the per-tree accumulate functions were not called once per tree", "step": c["step"], "seen": c["order_seen"],
                        "n_trees": c["n"], "n_jobs": c["n_jobs"]})
         first = {}
+        if not rep.get("batch_rows", True):
+            l2.append({"what": "the vectorised batch model disagrees with the per-row model (C18_batch)", "step": c["step"]})
         for j, p in enumerate(rep["points"]):
-            if not (p["means_agree"] and p["total_law"] and p["order_indep"]):
-                l2.append({"what": "model contradicts its own theorems (C18_mean / C18_total / C18_order)", "point": j, "reply": p})
+            if not (p["means_agree"] and p["total_law"] and p["order_indep"] and p.get("blocks_indep", True) and p.get("floor_law", True)):
+                l2.append({"what": "model contradicts its own theorems (C18_mean / C18_total / C18_order / C18_blocks / C18_floor)", "point": j, "reply": p,
+                           "blocks": c.get("blocks")})
             for key, clause, what in CLAUSES:
                 ok = all(p[key]) if key == "mean_ok" else p[key]
                 if not ok and clause not in first:
                     o = c["outs"]
                     first[clause] = (clause, what, k, {
                         "step": c["step"], "op": c["op"], "n_jobs": c["n_jobs"], "min_variance_in_force": c["minvar"], "n_trees": c["n"], "query": j,
+                        "query_object": c["qsig"], "output_dtypes": c.get("out_dtypes"),
                         "impl": {"predict": o["plain"][0][j], "return_std": [o["std"][0][j], o["std"][1][j]],
                                  "disentangled": [o["dis"][0][j], o["dis"][1][j], o["dis"][2][j]]},
                         "exact": {q: float(_fr(p[q])) for q in ("mean", "var", "al", "ep", "scale")}})
@@ -404,10 +544,10 @@ def _evaluate(ck, case, res, reqs, idx, early, reps):
         c = checks[k]
         if c["op"] in ("clone_refit",):
             epoch += 1
-        key = (epoch, c["minvar"])
-        if key in seen and seen[key]["n_jobs"] != c["n_jobs"]:
+        key = (epoch, c["minvar"], c["qsig"])
+        if key in seen and seen[key]["n_jobs"] != c["n_jobs"] and seen[key]["nq"] == c["nq"]:
             a, b = seen[key], c
-            for j in range(res["nq"]):
+            for j in range(c["nq"]):
                 tol = max(64, 2 * c["n"] + 8) * EPS * c["scale"][j] * 2 * (1 + 1e-9)
                 pairs = [(a["outs"]["std"][1][j], b["outs"]["std"][1][j]), (a["outs"]["dis"][1][j], b["outs"]["dis"][1][j]),
                          (a["outs"]["dis"][2][j], b["outs"]["dis"][2][j])]
@@ -419,7 +559,7 @@ def _evaluate(ck, case, res, reqs, idx, early, reps):
     acq = res.get("acq")
     if acq:
         if acq.get("error"):
-            fails.append(("raises", "acquisition on the fitted forest raised: " + acq["error"][:100], len(checks) - 1, acq))
+            fails.append(("acquisition-raises", "acquisition on the fitted forest raised: " + acq["error"][:100], len(checks) - 1, acq))
         else:
             if not acq["lcbd_ok"]:
                 fails.append(("d-acquisition-epistemic", "LCBd is not mean - kappa * epistemic std", len(checks) - 1, acq))
@@ -432,6 +572,20 @@ def _evaluate(ck, case, res, reqs, idx, early, reps):
                     fails.append((clause, f"{name} is not the acquisition evaluated with the " + ("total" if clause == "acquisition-total" else "epistemic") + " std",
                                   len(checks) - 1, {name: o}))
                     break
+            # against the Lean model on independent per-tree ground truth: the plain variants read the total std, the `d` variants the epistemic std
+            if acq_rep is not None:
+                for j, p in enumerate(acq_rep["points"]):
+                    if not p["model_ok"]:
+                        l2.append({"what": "model contradicts its own theorems (C18_dacq_epistemic / C18_acq_total / C18_lcbd_ge_lcb)", "point": j, "reply": p})
+                am = acq["model"]
+                for key, name, clause, part in (("plain_ok", "LCB(kappa=inf)", "acquisition-total", "total"), ("d_ok", "LCBd(kappa=inf)", "d-acquisition-epistemic", "epistemic")):
+                    bad = [j for j, p in enumerate(acq_rep["points"]) if not p[key]]
+                    if bad and not any(f[0] == clause for f in fails):
+                        j = bad[0]
+                        p = acq_rep["points"][j]
+                        fails.append((clause, f"{name}: the std read by the acquisition is not the {part} std of the trees", len(checks) - 1,
+                                      {name: {"query": j, "std_read": float(am["used_d" if key == "d_ok" else "used_plain"][j]),
+                                              "exact_variance_total": float(_fr(p["sel_plain"])), "exact_variance_epistemic": float(_fr(p["sel_d"]))}}))
     return fails, l2
 
 
@@ -444,14 +598,21 @@ def _run_and_evaluate(ck, d, case, spy):
     if "rejected" in res:
         return res, [], []
     reqs, idx, early = _requests(res)
-    reps = d.ask_all(reqs)
-    fails, l2 = _evaluate(ck, case, res, reqs, idx, early, reps)
+    areq = _acq_request(res)
+    reps = d.ask_all(reqs + ([areq] if areq else []))
+    fails, l2 = _evaluate(ck, case, res, reqs, idx, early, reps[:len(reqs)], reps[len(reqs)] if areq else None)
     return res, fails, l2
+
+
+def _without(q, field):
+    q2 = {k: v for k, v in (q or {}).items() if k != field}
+    return q2 or None
 
 
 def _classify(ck, d, spy, case, res, clause, k):
     """Shrink a failing case and derive the fingerprint options from the shrunk case:
-    stateless (a fresh forest built with the parameters in force fails alone) or a minimal history."""
+    stateless (a fresh forest built with the parameters in force fails alone) or a minimal history; then the query
+    object is reduced towards the plain float64 array and whatever is still needed is named in the fingerprint."""
     c = res["checks"][k]
     nj = c.get("n_jobs", 1)
     fresh = dict(case)
@@ -459,15 +620,63 @@ def _classify(ck, d, spy, case, res, clause, k):
     if "minvar" in c:
         fresh["kw"]["min_variance"] = c["minvar"]
     fresh["n_jobs0"] = nj
-    fresh["history"] = [{"op": "fit", "forms": res["checks"][k] and (case.get("history") or _default_history(case))[c["step"]].get("forms", FORMS)}]
+    fresh["query"] = c.get("q")
+    fresh["history"] = [{"op": "fit", "forms": (case.get("history") or _default_history(case))[c["step"]].get("forms", FORMS)}]
 
     def fails(cs):
         _, f, _ = _run_and_evaluate(ck, d, cs, spy)
         return [x for x in f if x[0] == clause]
 
+    def shrink_query(cs, best):
+        """greedy: drop the fields of the query spec (case level and per step) the failure does not need"""
+        def specs(cs):
+            return [("case", None)] + [("op", i) for i, o in enumerate(cs["history"]) if o.get("q")]
+
+        def get(cs, w):
+            return cs.get("query") if w[0] == "case" else cs["history"][w[1]].get("q")
+
+        def put(cs, w, q):
+            cs = dict(cs)
+            if w[0] == "case":
+                cs["query"] = q
+            else:
+                h = list(cs["history"])
+                h[w[1]] = dict(h[w[1]], q=q)
+                cs["history"] = h
+            return cs
+
+        for w in specs(cs):
+            if not get(cs, w):
+                continue
+            trial = put(cs, w, None)
+            f = fails(trial)
+            if f:
+                cs, best = trial, f[0]
+                continue
+            for field in ("rows", "readonly", "layout", "dtype"):
+                q = get(cs, w)
+                if q and field in q and not (field == "dtype" and q[field] == "f64") and not (field == "layout" and q[field] == "C"):
+                    trial = put(cs, w, _without(q, field))
+                    f = fails(trial)
+                    if f:
+                        cs, best = trial, f[0]
+        needed = []
+        for w in specs(cs):
+            q = get(cs, w) or {}
+            needed += [f"{k_}={q[k_]}" for k_ in ("dtype", "layout", "readonly", "rows") if k_ in q and not (k_ == "dtype" and q[k_] == "f64")
+                       and not (k_ == "layout" and q[k_] == "C")]
+        return cs, best, ("query(" + ",".join(sorted(set(needed))) + ")" if needed else "")
+
     f = fails(fresh)
     if f:
-        return fresh, ("n_jobs>1" if nj > 1 else ""), f[0]
+        best = f[0]
+        if nj > 1:  # does the failure need the parallel accumulation at all?
+            trial = dict(fresh, n_jobs0=1)
+            f1 = fails(trial)
+            if f1:
+                fresh, best, nj = trial, f1[0], 1
+        fresh, best, qopt = shrink_query(fresh, best)
+        return fresh, ",".join(x for x in ("n_jobs>1" if nj > 1 else "", qopt) if x), best
     hist = list(case.get("history") or _default_history(case))
     cur = dict(case)
     cur["history"] = hist
@@ -488,8 +697,14 @@ def _classify(ck, d, spy, case, res, clause, k):
                 f = fails(trial)
                 if f:
                     cur, best = trial, f[0]
+    qopt = ""
+    if best is None:
+        f = fails(cur)
+        best = f[0] if f else None
+    if best is not None:
+        cur, best, qopt = shrink_query(cur, best)
     kinds = [o["op"] + ("(min_variance)" if "min_variance" in o else "") + ("(n_jobs)" if o.get("n_jobs", 1) > 1 else "") for o in cur["history"][1:]]
-    return cur, "history=" + ">".join(kinds), best
+    return cur, "history=" + ">".join(kinds) + ("," + qopt if qopt else ""), best
 
 
 def _load_corpus():
@@ -521,9 +736,76 @@ def _stats(ck, case, res):
             ck.count("check:n_jobs>1," + ("n_trees%n_jobs!=0" if c["n"] % nj else "n_trees%n_jobs==0"))
             ck.count("order_parallel:" + ("unobserved" if not c["order_ok"] else "identity" if c["order"] == list(range(c["n"])) else "permuted"))
         ck.count("minvar:" + (f"{c['minvar']}" if "exp" not in case else "0" if c["minvar"] == 0 else "relative-to-target-scale"))
-        ck.count("query_points", res["nq"])
+        ck.count("query_points", c["nq"])
+        q = c.get("q") or {}
+        ck.count("query_dtype:" + q.get("dtype", "f64"))
+        ck.count("query_layout:" + q.get("layout", "C") + (",readonly" if q.get("readonly") else ""))
+        ck.count("query_rows:" + ("1" if c["nq"] == 1 else "2" if c["nq"] == 2 else "3+"))
+        for dt in c.get("out_dtypes", []):
+            ck.count("output_dtype:" + dt)
+        if nj > 1 and c.get("order_ok"):
+            ck.count("worker_blocks:" + str(min(len(c["blocks"]), 5)))
     ops = [o["op"] for o in (case.get("history") or _default_history(case))[1:]]
     ck.count("history:" + (",".join(sorted(set(ops))) or "none"))
+
+
+ACQ_NAMES = ("EId", "PId", "MESd", "LCB", "LCBd")
+
+
+def _acq_classify(ck, d, spy, case, clause):
+    """Does a failing acquisition clause need the case's query object?  -> (shrunk case, fingerprint suffix)"""
+    q = case.get("query")
+    if not q:
+        return case, ""
+
+    def fails(cs):
+        _, f, _ = _run_and_evaluate(ck, d, cs, spy)
+        return [x for x in f if x[0] == clause]
+
+    trial = dict(case, query=None)
+    if fails(trial):
+        return trial, ""
+    cur = case
+    for field in ("rows", "readonly", "layout", "dtype"):
+        q = cur.get("query") or {}
+        if field in q:
+            trial = dict(cur, query=_without(q, field))
+            if trial["query"] and fails(trial):
+                cur = trial
+    q = cur.get("query") or {}
+    needed = [f"{k}={q[k]}" for k in ("dtype", "layout", "readonly", "rows") if k in q and not (k == "dtype" and q[k] == "f64") and not (k == "layout" and q[k] == "C")]
+    return cur, (";query(" + ",".join(needed) + ")" if needed else "")
+
+
+def _report(ck, d, spy, case, res, fails, budget):
+    """one ck.fail per failing clause, the case shrunk and the fingerprint options derived from the shrunk case"""
+    done = set()
+    for clause, what, k, detail in fails:
+        if clause in done:
+            continue
+        done.add(clause)
+        ck.count("oracle:" + clause)
+        free = clause in ("d-acquisition-epistemic", "acquisition-total", "acquisition-raises") and not case.get("query")  # nothing to shrink
+        if free:
+            pass
+        elif budget is not None and budget.get(clause, 0) >= 4:
+            ck.count("oracle-not-shrunk:" + clause)
+            continue
+        elif budget is not None:
+            budget[clause] = budget.get(clause, 0) + 1
+        if clause in ("d-acquisition-epistemic", "acquisition-total"):
+            which = ",".join(sorted(q.replace("1e+06", "huge") for q in (detail or {}) if q.split("(")[0] in ACQ_NAMES)) or ("LCBd" if clause.startswith("d-") else "LCB")
+            shrunk, qopt = _acq_classify(ck, d, spy, case, clause)
+            ck.fail(f"C18|{clause}|_gaussian_acquisition|{which}{qopt}", what, shrunk, detail)
+            continue
+        if clause == "acquisition-raises":
+            shrunk, qopt = _acq_classify(ck, d, spy, case, clause)
+            ck.fail(f"C18|raises|_gaussian_acquisition|{qopt.lstrip(';')}", what, shrunk, detail)
+            continue
+        shrunk, opts, f2 = _classify(ck, d, spy, case, res, clause, k)
+        if f2 is not None:
+            what, detail = f2[1], f2[3]
+        ck.fail(f"C18|{clause}|{_cls_name(case)}.predict|{opts}", what, shrunk, detail)
 
 
 def _handle(ck, d, spy, case, budget):
@@ -538,24 +820,7 @@ def _handle(ck, d, spy, case, budget):
     _stats(ck, case, res)
     for det in l2[:2]:
         ck.mismatch(case, det)
-    done = set()
-    for clause, what, k, detail in fails:
-        if clause in done:
-            continue
-        done.add(clause)
-        ck.count("oracle:" + clause)
-        if clause in ("d-acquisition-epistemic", "acquisition-total"):
-            which = ",".join(sorted(k.replace("1e+06", "huge") for k in (detail or {}) if k.split("(")[0] in ("EId", "PId", "MESd", "LCB", "LCBd"))) or ("LCBd" if clause.startswith("d-") else "LCB")
-            ck.fail(f"C18|{clause}|_gaussian_acquisition|{which}", what, case, detail)
-            continue
-        if budget.get(clause, 0) >= 4:
-            ck.count("oracle-not-shrunk:" + clause)
-            continue
-        budget[clause] = budget.get(clause, 0) + 1
-        shrunk, opts, f2 = _classify(ck, d, spy, case, res, clause, k)
-        if f2 is not None:
-            what, detail = f2[1], f2[3]
-        ck.fail(f"C18|{clause}|{_cls_name(case)}.predict|{opts}", what, shrunk, detail)
+    _report(ck, d, spy, case, res, fails, budget)
 
 
 def run(ck):
@@ -567,13 +832,19 @@ def run(ck):
                "max_features x min_variance {0,1e-12,1e-3,2.5,7,1e6} x n_jobs {1,2,3,4}; each forest goes through a short history on the SAME fitted "
                "object (predict calls in the three forms in shuffled order, set_params / attribute assignment of min_variance and n_jobs, "
                "sklearn.base.clone + refit, pickle round trip) and after the fit and after every op all three predict forms are judged with the parameters "
-               "in force at that moment on 3-10 query points (training points, fresh points, outside the hull); distinct by generator parameters; "
+               "in force at that moment on 3-10 query points (training points, fresh points, outside the hull); the query OBJECT varies per case and per step: "
+               "dtype {float64, float32, float16, longdouble, int64/32/8, uint8, bool, object} x layout {C, Fortran, column-strided, row-strided, reversed "
+               "view, nested list, list of tuples, DataFrame} x read-only x batch {all rows, all but the first, two rows, one row}, ground truth taken with "
+               "an equal object; distinct by generator parameters; "
                "non-trivial = at least two trees with different predictions or a non-zero leaf variance")
     ck.assumptions = [
         "scikit-learn's tree fitting is not modelled: the per-tree (prediction, leaf impurity) pairs are extracted from estimators_ independently of the code under test and are inputs of the model",
         "float tolerance: variances within max(64, 2n+8)*eps*(aleatoric + E[m_t^2]) absolute (first-order rounding bound of the accumulation is (1.5n+2)*eps of that scale), means within 4*n*eps*mean|m_t|",
         "the accumulation order of the n_jobs threads is observed by serialising _accumulate_prediction* under an outer lock; the theorems hold for every order; an unobservable order is an L2 mismatch and the oracle still runs",
         "min_variance and impurity are finite doubles",
+        "dtype contract: tree.predict / tree_.impurity are float64 and the forest accumulates and returns float64 whatever the dtype, layout or container of the query "
+        "(scikit-learn's trees cast the query to float32 themselves; the ground truth is taken with an equal query object), so the float64 tolerances above apply to every query class",
+        "the per-thread blocks of trees (which worker handled which trees) are observed with threading.get_ident() in the same spy; C18_blocks holds for every partition",
     ]
     ck.trusted_extra = ["scikit-learn DecisionTreeRegressor.predict / apply / tree_.impurity (used to extract the per-tree pairs)"]
     cases = _load_corpus()
@@ -592,23 +863,13 @@ def replay(ck, case):
 
     with ck.driver() as d, _OrderSpy(forest) as spy:
         res, fails, l2 = _run_and_evaluate(ck, d, case, spy)
+        if "rejected" in res:
+            print("replay: scikit-learn rejected the configuration:", res["rejected"])
+            return
         ck.case(case)
         for det in l2[:2]:
             ck.mismatch(case, det)
-        seen = set()
-        for clause, what, k, detail in fails:
-            if clause in seen:
-                continue
-            seen.add(clause)
-            if clause in ("d-acquisition-epistemic", "acquisition-total"):
-                which = ",".join(sorted(q for q in (detail or {}) if q.split("(")[0] in ("EId", "PId", "MESd", "LCB", "LCBd"))) or ("LCBd" if clause.startswith("d-") else "LCB")
-                ck.fail(f"C18|{clause}|_gaussian_acquisition|{which}", what, case, detail)
-                continue
-            shrunk, opts, f2 = _classify(ck, d, spy, case, res, clause, k)
-            ck.fail(f"C18|{clause}|{_cls_name(case)}.predict|{opts}", what, shrunk, (f2 or (0, 0, 0, detail))[3])
-    if "rejected" in res:
-        print("replay: scikit-learn rejected the configuration:", res["rejected"])
-        return
-    print("replay:", {"steps": [{"step": c["step"], "op": c["op"], "n_jobs": c.get("n_jobs"), "min_variance": c.get("minvar"), "error": c["error"],
+        _report(ck, d, spy, case, res, fails, None)
+    print("replay:", {"steps": [{"step": c["step"], "op": c["op"], "n_jobs": c.get("n_jobs"), "min_variance": c.get("minvar"), "query": c.get("qsig"), "error": c["error"],
                                  "std[0]": None if c["error"] else [float(a[0]) for f in FORMS for a in c["outs"][f]]} for c in res["checks"]],
                       "failures": [f["fingerprint"] for f in ck.failures]})
